@@ -14,6 +14,7 @@ package main
 
 import (
 	"bufio"
+	"encoding/json"
 	"fmt"
 	"hash/crc32"
 	"math/rand"
@@ -84,11 +85,13 @@ type drvRun struct {
 	stubQ [][]sim.Msg // per GPU: answers of the scripted units behind the CP, not delivered yet
 	migOf []sim.Msg   // per GPU: the PageMigrationReqToCP being executed
 	// environment discipline
-	avoid       bool // keep clear of the two known driver defects (see design/C19.md)
-	burst       bool // answers reach the driver in bursts, without a cycle in between
-	allAccess   bool // every GPU is listed as accessing
-	unreadShoot int  // shootdown responses delivered to the driver and not read yet
-	stallAll    bool // the MMU takes no reply at all until the driver has gone idle
+	avoid       bool  // keep clear of the two known driver defects (see design/C19.md)
+	burst       bool  // answers reach the driver in bursts, without a cycle in between
+	allAccess   bool  // every GPU is listed as accessing
+	unreadShoot int   // shootdown responses delivered to the driver and not read yet
+	stallAll    bool  // the MMU takes no reply at all until the driver has gone idle
+	spare       int   // sys: declared frames per GPU beyond the initial pages
+	rehomed     []int // sys: pages requested onto GPU g so far (must stay within the declared frames)
 }
 
 // mayDeliver applies the `avoid` discipline to a response about to be delivered to the driver:
@@ -201,7 +204,11 @@ func kindOfRsp(m sim.Msg) string {
 }
 
 func newDrvRun(rec *ab.Recorder, pmcRec *ab.Recorder, n int, log2 uint64, sys bool, rng *rand.Rand, pagesPerGPU int) *drvRun {
-	r := &drvRun{rec: rec, eng: ab.NewEngine(), n: n, log2: log2, sys: sys, count: map[string]int{}}
+	r := &drvRun{rec: rec, eng: ab.NewEngine(), n: n, log2: log2, sys: sys, count: map[string]int{}, spare: 8}
+	if log2 >= 12 {
+		r.spare = 3 // 4 KiB pages: keep the declared storage (and with it every TLC state) small
+	}
+	r.rehomed = make([]int, n+1)
 	rec.ResetIDs()
 	pageSize := uint64(1) << log2
 	dram := pageSize * 64
@@ -283,7 +290,7 @@ func newDrvRun(rec *ab.Recorder, pmcRec *ab.Recorder, n int, log2 uint64, sys bo
 		}
 		if sys {
 			// pages the allocator may hand out next on this device (it pops the lowest free page)
-			for k := pagesPerGPU; k < pagesPerGPU+8; k++ {
+			for k := pagesPerGPU; k < pagesPerGPU+r.spare; k++ {
 				r.w.addFrame(g, r.lo[g]+uint64(k)*pageSize, int(pageSize), rng)
 			}
 		}
@@ -450,6 +457,16 @@ func (r *drvRun) tick(n int) {
 func (r *drvRun) issue(host int, want map[int][]*vpage, accessing []uint64) bool {
 	if r.mmuP.PeekIncoming() != nil {
 		return false
+	}
+	if r.sys {
+		for g, ps := range want {
+			if r.rehomed[g]+len(ps) > r.spare {
+				return false // the destination pages would lie outside the storage declared to the trace spec
+			}
+		}
+		for g, ps := range want {
+			r.rehomed[g] += len(ps)
+		}
 	}
 	req := vm.NewPageMigrationReqToDriver(sim.RemotePort("MMU.MigrationPort"), r.mmuP.AsRemote())
 	req.ID = sim.GetIDGenerator().Generate()
@@ -880,6 +897,120 @@ func (r *drvRun) random(rng *rand.Rand, nreq int, stallReplies bool) {
 	}
 }
 
+// DrvScenario is the environment half of one behaviour of MigrationScen.tla (2 GPUs; model pages
+// 1 and 2 live on GPU 1, page 3 on GPU 2).
+type DrvScenario struct {
+	Steps []Step `json:"steps"`
+}
+
+func (r *drvRun) modelPage(v int) *vpage {
+	switch v {
+	case 1, 2:
+		return r.pages[v-1]
+	default:
+		return r.pages[3] // first page of GPU 2 (3 pages per GPU)
+	}
+}
+
+func (r *drvRun) await(max int, cond func() bool) bool {
+	for i := 0; i < max && !cond() && !r.panicked; i++ {
+		r.tick(1)
+	}
+	return cond()
+}
+
+func (r *drvRun) scenStep(s Step, want map[string]int, stats map[string]int) {
+	ok := true
+	switch s.A {
+	case "EnvMMUReq":
+		w := map[int][]*vpage{}
+		for _, v := range s.Vs {
+			w[s.G] = append(w[s.G], r.modelPage(v))
+		}
+		acc := []uint64{}
+		for _, a := range s.Acc {
+			acc = append(acc, uint64(a))
+		}
+		r.await(awaitMax, func() bool { return r.mmuP.PeekIncoming() == nil })
+		ok = r.issue(s.Host, w, acc)
+	case "GPUTake":
+		r.await(awaitMax, func() bool { return r.gpuP.PeekOutgoing() != nil })
+		ok = r.gpuTake()
+	case "GPURsp":
+		find := func() int {
+			for i, c := range r.cpIn[s.G] {
+				if c.k == s.K {
+					return i
+				}
+			}
+			return -1
+		}
+		// the `avoid` discipline may ask for a few cycles first (nothing behind an unread shootdown ack)
+		r.await(awaitMax, func() bool {
+			return r.unreadShoot == 0 && (s.K != "shoot" || r.gpuP.PeekIncoming() == nil)
+		})
+		if i := find(); i >= 0 {
+			ok = r.gpuRspAt(s.G, i)
+		} else {
+			ok = false
+		}
+	case "TakeReply":
+		r.await(awaitMax, func() bool { return r.mmuP.PeekOutgoing() != nil })
+		ok = r.takeReply()
+	case "Await":
+		want[s.E]++
+		ok = r.await(awaitMax, func() bool { return r.count[s.E] >= want[s.E] })
+	default:
+		panic("unknown driver-level step " + s.A)
+	}
+	if ok {
+		stats["steps_done"]++
+	} else {
+		stats["steps_skipped"]++
+		stats["skipped_"+s.A]++
+	}
+}
+
+func runDriverScenarios(file, out string) map[string]int {
+	data, err := os.ReadFile(file)
+	if err != nil {
+		panic(err)
+	}
+	var scs []DrvScenario
+	if err := json.Unmarshal(data, &scs); err != nil {
+		panic(err)
+	}
+	f, err := os.Create(out)
+	if err != nil {
+		panic(err)
+	}
+	bw := bufio.NewWriter(f)
+	rec := ab.NewRecorder(bw)
+	stats := map[string]int{}
+	rng := rand.New(rand.NewSource(1))
+	for _, sc := range scs {
+		r := newDrvRun(rec, nil, 2, 12, false, rng, 3)
+		r.avoid = true
+		want := map[string]int{}
+		for _, s := range sc.Steps {
+			if r.panicked {
+				break
+			}
+			r.replyDiscipline()
+			r.scenStep(s, want, stats)
+		}
+		r.finish(rng)
+		for _, k := range []string{"Reply", "Cmd", "PTChange", "MMUReq"} {
+			stats[k] += r.count[k]
+		}
+	}
+	bw.Flush()
+	f.Close()
+	stats["traces"] = len(scs)
+	stats["events"] = rec.Seq
+	return stats
+}
+
 func runDriverLevel(out, pmcOut string, nruns int, seed int64, sys bool, ngpu int, log2 uint64, kind string) map[string]int {
 	f, err := os.Create(out)
 	if err != nil {
@@ -901,8 +1032,15 @@ func runDriverLevel(out, pmcOut string, nruns int, seed int64, sys bool, ngpu in
 	rng := rand.New(rand.NewSource(seed))
 	stats := map[string]int{}
 	for i := 0; i < nruns; i++ {
-		r := newDrvRun(rec, pmcRec, ngpu, log2, sys, rng, 3)
+		ppg := 3
+		if sys && log2 >= 12 {
+			ppg = 2
+		}
+		r := newDrvRun(rec, pmcRec, ngpu, log2, sys, rng, ppg)
 		nreq := 1 + rng.Intn(4)
+		if sys && log2 >= 12 {
+			nreq = 1 + rng.Intn(2)
+		}
 		st := false
 		switch kind {
 		case "normal":
